@@ -85,10 +85,11 @@ type Contracts struct {
 	Files     []string
 	GhostVars map[string]ast.Expr // ghost global variables: name -> type expression
 	GhostPkg  map[string]string
+	SymConsts map[string][]string // package -> named constants treated as symbolic (table sizes)
 }
 
 func newContracts() *Contracts {
-	return &Contracts{Funcs: map[string]*FuncContract{}, Specs: map[string]*SpecDef{}, GhostVars: map[string]ast.Expr{}, GhostPkg: map[string]string{}}
+	return &Contracts{Funcs: map[string]*FuncContract{}, Specs: map[string]*SpecDef{}, GhostVars: map[string]ast.Expr{}, GhostPkg: map[string]string{}, SymConsts: map[string][]string{}}
 }
 
 var labelRe = regexp.MustCompile(`^\[([A-Za-z0-9_.:#+\-]+)\]\s*`)
@@ -149,6 +150,8 @@ func (cs *Contracts) load(path string) error {
 		case "package":
 			pkg = rest
 			cur, loop = nil, nil
+		case "symconst":
+			cs.SymConsts[pkg] = append(cs.SymConsts[pkg], strings.Fields(rest)...)
 		case "ghostvar":
 			f := strings.Fields(rest)
 			if len(f) != 2 {
